@@ -33,3 +33,12 @@ claim('C06',
       'Trusts CrossHair/z3; step budget 400+60(n+2)^2 token peeks stands for "terminates"; bounds and skeleton lists in '
       'props/C06.py.',
       'DESIGN.md section 4 C06')
+claim('C01',
+      'Bounded-exhaustive symbolic execution of the real strict parser with an arithmetic oracle on the source string: '
+      'for every Unicode string up to the stated length (three contexts) and 41+ document skeletons with free holes '
+      'covering every standard argument type, the top-level nodes tile the input, children nest in order without '
+      'overlap, chars/comment text equals the source slice and the verbatim concatenation is the input; the '
+      'nesting part also on tolerant parses. Right level: span arithmetic errors show only for particular adjacencies '
+      '(whitespace/comment/paragraph next to a construct), which holes ranging over all Unicode enumerate.',
+      'Trusts CrossHair/z3; bounds and skeleton list in props/C01.py / vlib/parsefam.py; tree walk over public attributes.',
+      'DESIGN.md section 4 C01')
